@@ -232,6 +232,7 @@ package cluster
 
 // The node configuration is read from the config file at start-up and never written afterwards.
 //@ immutable ClusterNode.cfg the only assignment is in NewNode
+//@ immutable ClusterNode.Servers the only assignment is in NewNode (the server list changes only with a restart)
 
 // ---- internal routing of an RPC (property C17): success is reported only for a completed call ----
 //@ func (Destinationer).Destination
@@ -365,3 +366,45 @@ package cluster
 //@   safety -overflow -nil
 //@   requires c.cfg.RpcRetries >= 1
 //@   ensures old(args.RPCRequestArgs.Dest == c.MyHostname) ==> ncalls(internalRoute) == 0 && ncalls(Write) == 1 && result == callres(Write, 1, 0)
+
+// ---- the user id on its way from the API to the collection records (properties C16, C13) ----
+// Each collection action asks the server that routing designates for THE CALLER'S user id and puts
+// that same user id (and collection id) into the request: no other tenant's key can be formed.
+// The RPC stubs are trusted frames here (they fill the reply; their storage closures are under
+// contract above).
+//@ func (*ClusterNode).RPCCreateCollection
+//@   trusted
+//@   pure
+//@   writesarg 2
+//@ func (*ClusterNode).RPCListCollections
+//@   trusted
+//@   pure
+//@   writesarg 2
+//@ func (*ClusterNode).RPCGetCollection
+//@   trusted
+//@   pure
+//@   writesarg 2
+
+//@ func (*ClusterNode).CreateCollection
+//@   property C16 C13
+//@   safety -overflow -nil
+//@   requires len(c.Servers) >= 1
+//@   before RPCCreateCollection requires arg1.Collection.UserId == collection.UserId && arg1.Collection.Id == collection.Id && arg1.RPCRequestArgs.Dest == callres(RendezvousHash, 1, 0)[0] && callarg(RendezvousHash, 1, 0) == collection.UserId && callarg(RendezvousHash, 1, 1) == c.Servers
+//@   ensures ncalls(RPCCreateCollection) == 1
+//@   ensures result == nil ==> callres(RPCCreateCollection, 1, 0) == nil
+
+//@ func (*ClusterNode).ListCollections
+//@   property C16 C13
+//@   safety -overflow -nil
+//@   requires len(c.Servers) >= 1
+//@   before RPCListCollections requires arg1.UserId == userId && arg1.RPCRequestArgs.Dest == callres(RendezvousHash, 1, 0)[0] && callarg(RendezvousHash, 1, 0) == userId && callarg(RendezvousHash, 1, 1) == c.Servers
+//@   ensures ncalls(RPCListCollections) == 1
+//@   ensures result1 == nil ==> callres(RPCListCollections, 1, 0) == nil
+
+//@ func (*ClusterNode).GetCollection
+//@   property C16 C13
+//@   safety -overflow -nil
+//@   requires len(c.Servers) >= 1
+//@   before RPCGetCollection requires arg1.UserId == userId && arg1.CollectionId == collectionId && arg1.RPCRequestArgs.Dest == callres(RendezvousHash, 1, 0)[0] && callarg(RendezvousHash, 1, 0) == userId && callarg(RendezvousHash, 1, 1) == c.Servers
+//@   ensures ncalls(RPCGetCollection) == 1
+//@   ensures result1 == nil ==> callres(RPCGetCollection, 1, 0) == nil
